@@ -173,8 +173,18 @@ def _index() -> IX.Index:
     return ix
 
 
+def _safe_expand(zdir, qtext):
+    """expand_saved_queries, with an exception turned into a value: ('raised', message)."""
+    from zorg.service.swog._saved_queries import expand_saved_queries as _exp
+
+    try:
+        return _exp(zdir, qtext)
+    except Exception as e:  # noqa: BLE001
+        return ("raised", f"{type(e).__name__}: {e}")
+
+
 def _run_case(ctx, case) -> F.Outcome:
-    from zorg.service.swog._saved_queries import expand_saved_queries
+    expand_saved_queries = _safe_expand
 
     kind = case[0]
     if kind == "nested-edit":
@@ -195,7 +205,11 @@ def _run_case(ctx, case) -> F.Outcome:
         res, err = ix.execute(qtext)
         out.obs = H.digest([exp, err])
         out.nontrivial = H.digest(case)
-        if exp is not None or err is None:
+        if isinstance(exp, tuple):
+            out.ok = False
+            out.sig = "expansion-raised"
+            out.detail = {"query": qtext, "error": exp[1]}
+        elif exp is not None or err is None:
             out.ok = False
             out.sig = "missing-saved-query-not-reported"
             out.detail = {"query": qtext, "expansion": exp, "execute_result": res, "execute_error": err}
@@ -218,7 +232,10 @@ def _run_case(ctx, case) -> F.Outcome:
     exp = expand_saved_queries(ix.zdir, qtext)
     problem = None
     got = None
-    if exp is None:
+    if isinstance(exp, tuple):
+        problem = ("expansion-raised", {"error": exp[1]})
+        exp = None
+    elif exp is None:
         problem = ("expansion-failed", {})
     else:
         ok, why = qwf.wellformed(exp)
